@@ -23,3 +23,31 @@ check("C01", "model_checking",
       "trusted: TLC; rank abstraction (relative gaps >= 1e-5 so that division by a positive epsilon preserves the order); "
       "marker projection to {0,+-1,+-2}", "TLC exhaustive model + TLC-exported domain replayed + TLC trace validation",
       "DESIGN.md 5/C01")
+
+check("C02", "model_checking",
+      "NDSort.tla models fast_nondominated_sorting as Pairwise (i<j pass filling counters / dominated lists) + one Peel action per "
+      "front; TLC checks for every population as a sequence (i.e. every input order) of size <=3 (thorough 4, also 3 objectives) over "
+      "18 vectors that the result satisfies the declarative rank characterisation RankOK, equals the well-founded TrueRank, leaves "
+      "nobody unranked, front 1 = non-dominated subset, fronts mutually non-dominated, and that partial ranks are already final. "
+      "Populations of the model (all of size <=3, sampled 4-6), random populations up to 40x4 and every sort call inside real "
+      "NSGA-II runs are executed with every public Selector flavour and validated by SortTrace against RankOK.",
+      "trusted: TLC; rank abstraction of costs; observation through features['front_number']",
+      "TLC exhaustive model + model populations replayed + TLC trace validation", "DESIGN.md 5/C02")
+check("C03", "model_checking",
+      "Selection.tla: rank, then truncate by ANY outcome the relation TruncOK allows, then a tournament by ANY outcome TournOK allows; "
+      "TLC checks over all populations of size <=3 (18 vectors; thorough: 4 values / 3 objectives) that every allowed truncation is "
+      "elitist, has the right count, that the reference order (front asc, crowding desc) is allowed, exact crowding in [0,M], winner "
+      "sound. The real crowding_distance (exact rational projection; tie and zero-range cases by the relaxed clause), "
+      "nondominated_truncate (model populations x all k, random populations with duplicated designs and hash-colliding vectors) and "
+      "TournamentSelector.select (all ordered pairs forced through random.sample) are validated by SortTrace.",
+      "trusted: TLC; affine cost concretisation (gap/range ratios exact); nearest-rational projection of crowding distances",
+      "TLC exhaustive relational model + TLC trace validation of real outputs", "DESIGN.md 5/C03")
+check("C04", "model_checking",
+      "Archive.tla models Archive.add at code grain (scan over a snapshot, delete while scanning, break on dominating/equal member) for "
+      "the Pareto comparator and every resolution of the epsilon relation, plus truncate as any outcome keeping the largest features; "
+      "TLC checks all histories of <=4 (thorough 5-6) additions over 18 vectors with a truncation anywhere: content = NonDominated(offered) "
+      "= incremental NDInsert set, one representative each, mutual non-dominance, covered rejections, result law. ArchiveGen emits every "
+      "history of <=3 (thorough 4) additions and simulated longer ones with truncations (2-3 objectives); they and random histories of "
+      "30-300 additions (shared design vectors included) run on the real Archive with both comparators; ArchiveTrace validates every event.",
+      "trusted: TLC; rank abstraction of costs and features; insertion observed by object identity",
+      "TLC exhaustive model + TLC-emitted behaviours replayed + TLC trace validation", "DESIGN.md 5/C04")
